@@ -123,7 +123,7 @@ func frameOffsets(b []byte) []int {
 	return out
 }
 
-var c11Operators = []string{"bitflip", "byteset", "splice", "truncate", "lenfield", "typebyte", "zerorun", "indexblock", "garbage", "headerswap", "extend"}
+var c11Operators = []string{"bitflip", "byteset", "splice", "truncate", "lenfield", "typebyte", "zerorun", "indexblock", "garbage", "headerswap", "extend", "payloadlen"}
 
 // c11MutateFile damages one file of disk; returns (operator target description).
 func c11MutateFile(rng *rand.Rand, disk *simfs.Disk, base *c11Base, op string) (string, bool) {
@@ -222,6 +222,40 @@ func c11MutateFile(rng *rand.Rand, disk *simfs.Disk, base *c11Base, op string) (
 		if len(other) >= 32 {
 			copy(b[:32], other[:32])
 		}
+	case "payloadlen":
+		// the codec's own length prefixes inside an entry frame's payload (Data, then Extensions):
+		// replaced by a uvarint that is huge, negative when cast to int, or just beyond the payload
+		var entries []int
+		for _, o := range offs {
+			if b[o] == 1 {
+				entries = append(entries, o)
+			}
+		}
+		if len(entries) == 0 {
+			return "", false
+		}
+		o := entries[rng.Intn(len(entries))]
+		ln := int(binary.LittleEndian.Uint32(b[o+4:]))
+		pl := b[o+8 : min(len(b), o+8+ln)]
+		p := 0
+		for k := 0; k < 3 && p < len(pl); k++ {
+			_, m := binary.Uvarint(pl[p:])
+			if m <= 0 {
+				return "", false
+			}
+			p += m
+		}
+		if rng.Intn(2) == 0 && p < len(pl) {
+			// move on to the Extensions prefix
+			dl, m := binary.Uvarint(pl[p:])
+			if m > 0 && p+m+int(dl) < len(pl) {
+				p += m + int(dl)
+			}
+		}
+		vals := []uint64{1 << 63, ^uint64(0), 1<<63 + 1, 1<<63 - 1, 1 << 62, 1 << 32, 1 << 31, 1<<31 - 1, uint64(len(pl)), uint64(len(pl) + 1), uint64(len(pl) - p)}
+		var enc [binary.MaxVarintLen64]byte
+		m := binary.PutUvarint(enc[:], vals[rng.Intn(len(vals))])
+		copy(pl[p:], enc[:m])
 	case "extend":
 		extra := make([]byte, 8*(1+rng.Intn(64)))
 		if rng.Intn(2) == 0 {
@@ -700,6 +734,20 @@ func c11Decode(c *evid.Ctx, rng *rand.Rand) {
 		hb := append(append([]byte{}, huge[:p]...), 0xff, 0xff, 0xff, 0xff, 0x0f)
 		hb = append(hb, huge[p+1:]...)
 		try(hb, "length-beyond-buffer", true)
+		// the same with the values that overflow a signed length or a 32-bit one, for Data and for Extensions
+		for vi, v := range []uint64{1 << 63, ^uint64(0), 1<<63 + 1, 1<<63 - 1, 1 << 62, 1 << 32, 1 << 31, uint64(len(enc)), uint64(len(enc) + 1)} {
+			var ve [binary.MaxVarintLen64]byte
+			m := binary.PutUvarint(ve[:], v)
+			hd := append(append(append([]byte{}, huge[:p]...), ve[:m]...), huge[p+1:]...)
+			try(hd, fmt.Sprintf("data-length-prefix-%d", vi), true)
+			// Extensions prefix: directly after the Data bytes
+			dl, dm := binary.Uvarint(huge[p:])
+			q := p + dm + int(dl)
+			if dm > 0 && q < len(huge) {
+				he := append(append(append([]byte{}, huge[:q]...), ve[:m]...), huge[q+1:]...)
+				try(he, fmt.Sprintf("ext-length-prefix-%d", vi), true)
+			}
+		}
 		// trailing garbage makes the time field the wrong size
 		try(append(append([]byte{}, enc...), 1, 2, 3), "trailing-bytes", true)
 		// random damage: only must not panic
